@@ -1222,7 +1222,9 @@ fn gen_vals(rng: &mut Rng, n: usize, out: &mut Out) -> Vec<usize> {
         // bulk at one bit length (often above 32) plus a few longer outliers
         let l1 = if rng.chance(2, 3) { rng.range(33, 62) } else { rng.range(2, 40) };
         let l2 = rng.range(l1 + 1, 64);
-        let bulk = |rng: &mut Rng, l: u64| -> usize { (if l == 64 { rng.next() | (1 << 63) } else { (rng.next() & ((1u64 << l) - 1)) | (1u64 << (l - 1)) }) as usize };
+        let bulk = |rng: &mut Rng, l: u64| -> usize {
+            let dense = if l == 64 { rng.next() | (1 << 63) } else { (rng.next() & ((1u64 << l) - 1)) | (1u64 << (l - 1)) };
+            (if rng.chance(1, 4) { (1u64 << (l - 1)) | rng.below(4) } else { dense }) as usize };
         let outliers = rng.range(1, 5) as usize;
         let mut v: Vec<usize> = (0..n).map(|i| if i < outliers { bulk(rng, l2) } else { bulk(rng, l1) }).collect();
         if n > 1 { let j = rng.below(n as u64) as usize; v.swap(0, j); }
@@ -1272,6 +1274,11 @@ fn gen_vals(rng: &mut Rng, n: usize, out: &mut Out) -> Vec<usize> {
             t -= *w;
         }
         let x = if bl == 1 { rng.below(2) } else if bl == 64 { rng.next() | (1 << 63) } else { (rng.next() & ((1u64 << bl) - 1)) | (1u64 << (bl - 1)) };
+        // sparse bit patterns as well: a power of two, or with one or two further bits
+        let x = if bl >= 2 && rng.chance(1, 4) {
+            let top = 1u64 << (bl - 1);
+            match rng.below(3) { 0 => top, 1 => top | (1u64 << rng.below(bl as u64 - 1)), _ => top | rng.below(16) }
+        } else { x };
         v.push(x as usize);
     }
     if class == 5 { v.iter_mut().for_each(|x| *x = 0); }
